@@ -241,6 +241,9 @@ func init() {
 			}
 			return sum.Judgements[i].Case < sum.Judgements[j].Case
 		})
+		for k, v := range specRuleCounts {
+			sum.Features["rule-applied:"+k] = v
+		}
 		sum.WallS = time.Since(t0).Seconds()
 		b, _ := json.MarshalIndent(sum, "", " ")
 		if *out != "" {
